@@ -273,6 +273,7 @@ class Tensor:
     __slots__ = ("_a", "dtype", "device", "requires_grad", "_base", "grad", "__weakref__")
     __array_priority__ = 10000
     __array_ufunc__ = None
+    IS_SYMTORCH_TENSOR = True            # poly.Poly's arithmetic defers to the tensor's reflected operators
 
     def __init__(self, *a, **k):
         raise UnsupportedOp("torch.Tensor(...) constructor")
@@ -396,6 +397,15 @@ class Tensor:
     def __bool__(self):
         if self._a.size != 1:
             raise RuntimeError("Boolean value of Tensor with more than one value is ambiguous")
+        return builtins.bool(self._scalar())
+
+    def is_nonzero(self):
+        """torch: defined for single-element tensors only; a value-dependent decision (UndecidedTruth unless
+        the entry is the zero polynomial, a constant or a monomial of non-zero-declared symbols)"""
+        _log("is_nonzero")
+        if self._a.size != 1:
+            raise RuntimeError("Boolean value of Tensor with " + ("no values" if self._a.size == 0 else
+                               "more than one value") + " is ambiguous")
         return builtins.bool(self._scalar())
 
     def __int__(self):
